@@ -2,6 +2,7 @@ package verifh
 
 import (
 	"fmt"
+	"strings"
 
 	"github.com/deepteams/webp/internal/vsim"
 	"github.com/deepteams/webp/internal/vsim/ssync"
@@ -85,9 +86,9 @@ func (propC10) NewParams() any { return &C10Params{} }
 
 func (propC10) Plan(tier string) (int, int) {
 	if tier == "thorough" {
-		return 600000, 60000
+		return 600000, 6000
 	}
-	return 24000, 3000
+	return 24000, 200
 }
 
 func genRowPipelineOp(r *RNG) Op {
@@ -111,6 +112,32 @@ func genRowPipelineOp(r *RNG) Op {
 func (propC10) Gen(seed uint64, tier string, idx int) any {
 	r := NewRNG(seed)
 	p := &C10Params{}
+	if strings.HasSuffix(tier, "+race") {
+		// -race batch: small workloads (TSan cost is dominated by large allocations)
+		if r.Pct(60) {
+			p.Workload = "A"
+			p.Sched = GenSched(r, 300, 2)
+			if p.Sched.Procs > 6 {
+				p.Sched.Procs = r.Range(2, 6)
+			}
+			op := genRowPipelineOp(r)
+			op.Img.W = r.Pick(1, 16, 17, 32, 33, 48)
+			op.Img.H = r.Pick(49, 50, 64, 65, 80)
+			p.Clients = [][]Op{{op}}
+		} else {
+			p.Workload = "C"
+			p.Sched = GenSched(r, 400, 1)
+			nc := r.Range(2, 4)
+			for c := 0; c < nc; c++ {
+				var ops []Op
+				for i, n := 0, r.Range(1, 2); i < n; i++ {
+					ops = append(ops, GenStillOp(r, 1, 24, false))
+				}
+				p.Clients = append(p.Clients, ops)
+			}
+		}
+		return p
+	}
 	switch v := r.Intn(100); {
 	case v < 45:
 		p.Workload = "A"
